@@ -94,6 +94,7 @@ type H struct {
 	gotF  float64
 	gotP  *Inner
 	gotL  []int64
+	gotL2 []int64
 	gotO  Outer
 	gotBs []byte
 	gotM  map[string]int64
@@ -143,8 +144,13 @@ func (h *H) Ptr(ctx context.Context, p *Inner) (*Inner, error) {
 	return h.retP, h.err()
 }
 func (h *H) List(l []int64) ([]int64, error) { h.ran += "List;"; h.gotL = l; return h.retL, h.err() }
-func (h *H) Struct(o Outer) (Outer, error)   { h.ran += "Struct;"; h.gotO = o; return h.retO, h.err() }
-func (h *H) Bytes(b []byte) ([]byte, error)  { h.ran += "Bytes;"; h.gotBs = b; return h.retBs, h.err() }
+func (h *H) TwoLists(a, b []int64) ([]int64, error) {
+	h.ran += "TwoLists;"
+	h.gotL, h.gotL2 = a, b
+	return h.retL, h.err()
+}
+func (h *H) Struct(o Outer) (Outer, error)  { h.ran += "Struct;"; h.gotO = o; return h.retO, h.err() }
+func (h *H) Bytes(b []byte) ([]byte, error) { h.ran += "Bytes;"; h.gotBs = b; return h.retBs, h.err() }
 func (h *H) Map(ctx context.Context, m map[string]int64) (map[string]int64, error) {
 	h.ran += "Map;"
 	h.gotM = m
@@ -201,23 +207,24 @@ func (h *H) Raw(ctx context.Context, p jsonrpc.RawParams) (string, error) {
 
 // C is the client proxy struct.
 type C struct {
-	Void    func()
-	VoidCtx func(ctx context.Context)
-	ErrOnly func(a int64) error
-	Val1    func(a int64) int64
-	Two     func(ctx context.Context, a int64, s string) (string, error)
-	Three   func(a uint64, b bool, c string) (uint64, error)
-	Ptr     func(ctx context.Context, p *Inner) (*Inner, error)
-	List    func(l []int64) ([]int64, error)
-	Struct  func(o Outer) (Outer, error)
-	Bytes   func(b []byte) ([]byte, error)
-	Map     func(ctx context.Context, m map[string]int64) (map[string]int64, error)
-	Float   func(f float64) (float64, error)
-	Any     func(v interface{}) (string, error)
-	AnyMap  func(ctx context.Context, m map[string]interface{}) (string, error)
-	Raw     func(ctx context.Context, p jsonrpc.RawParams) (string, error)
-	Lvl     func(l Level) (Level, error)
-	Option  func(o Opt) (Opt, error)
+	Void     func()
+	VoidCtx  func(ctx context.Context)
+	ErrOnly  func(a int64) error
+	Val1     func(a int64) int64
+	Two      func(ctx context.Context, a int64, s string) (string, error)
+	Three    func(a uint64, b bool, c string) (uint64, error)
+	Ptr      func(ctx context.Context, p *Inner) (*Inner, error)
+	List     func(l []int64) ([]int64, error)
+	TwoLists func(a, b []int64) ([]int64, error)
+	Struct   func(o Outer) (Outer, error)
+	Bytes    func(b []byte) ([]byte, error)
+	Map      func(ctx context.Context, m map[string]int64) (map[string]int64, error)
+	Float    func(f float64) (float64, error)
+	Any      func(v interface{}) (string, error)
+	AnyMap   func(ctx context.Context, m map[string]interface{}) (string, error)
+	Raw      func(ctx context.Context, p jsonrpc.RawParams) (string, error)
+	Lvl      func(l Level) (Level, error)
+	Option   func(o Opt) (Opt, error)
 }
 
 type fm struct {
@@ -349,7 +356,7 @@ func HarnessShapes() {
 	c, closer := setup(h)
 	defer closer()
 	ctx := context.Background()
-	shape := verif.Choice("shape", 17)
+	shape := verif.Choice("shape", 18)
 	switch shape {
 	case 0:
 		c.Void()
@@ -403,6 +410,18 @@ func HarnessShapes() {
 		h.retL = symList("ret")
 		v, err := c.List(l)
 		verif.Assert(h.ran == "List;" && eqList(h.gotL, l), "list-arg")
+		if h.fail {
+			verif.Assert(err != nil && v == nil, "list-zero-value-on-error")
+		} else {
+			verif.Assert(err == nil && eqList(v, h.retL), "list-result")
+		}
+	case 17:
+		// two parameters of one composite type: each is decoded on its own (the second may be
+		// shorter than the first)
+		a, b := symList("la"), symList("lb")
+		h.retL = symList("ret")
+		v, err := c.TwoLists(a, b)
+		verif.Assert(h.ran == "TwoLists;" && eqList(h.gotL, a) && eqList(h.gotL2, b), "two-lists-args")
 		if h.fail {
 			verif.Assert(err != nil && v == nil, "list-zero-value-on-error")
 		} else {
